@@ -61,6 +61,17 @@ def driver_universe(ex, ck, aborts=False, budget=None):
     for tc in small_layouts(n_small + 1, alphabet=(b"a", b"b", b"ab"), with_nonred=False):
         if len(tc[1]) >= 3:
             explore("minimize", {}, tc, stream="minimize-varlen", max_runs=60 if quick else 400)
+    # 1c. files LOADED by the real loaders (the run starts from what load() made of the bytes on disk): every line
+    #     terminator style, byte-order mark, bytes that are not UTF-8, with and without markers, all five splitters
+    loaded = [b"one\r\ntwo\r\nkeep\r\n", b"a\rb\rc", b"\xef\xbb\xbfx\ny\n", b"p\xff\nq\xc3\n\xa9r\n",
+              b"h\r\n// DDBEGIN\r\nl1\r\nl2\rl3\n// DDEND\r\nt\r", b"u\xc2\x85v\xe2\x80\xa8w\x0cx\n",
+              b"x = 'a\\r\\n' + \"b\";\r\n", b'<a b="c"\r\n d=e>\r\n']
+    for i, data in enumerate(loaded):
+        for atom in ("line", "char", "symbol", "jsstr", "attrs"):
+            if quick and (i + len(atom)) % 2:
+                continue
+            explore("minimize", {}, None, file0=data, atom=atom, load=True, stream="loaded-" + atom,
+                    max_runs=12 if quick else 120)
     # 2. the other strategies drive the model DRIVER through their recorded proposals
     others = ["minimize-around", "minimize-balanced", "minimize-collapse-brace",
               "replace-properties-by-globals", "replace-arguments-by-globals"]
@@ -166,6 +177,9 @@ def session_universe(ck, oracle, quick=True, strategies=("minimize", "minimize-a
             runs = impl_session([{"strategy": "minimize", "cfg": {}, "atom": "line",
                                   "file0": b"// DDBEGIN\nl1\nl2\nl3\nl4\nl5\n// DDEND\n", "verdict": v, "write_fault": k}])
             run = runs[0]
+            if run.fault_last:
+                ck.count("write-fault-on-last-write(skipped)")
+                continue
             ck.count("write-fault")
             ck.nontrivial(("write-fault", k, v))
             ctx = {"strategy": "minimize", "cfg": {}, "tc": run.loaded, "file0": b"// DDBEGIN\nl1\nl2\nl3\nl4\nl5\n// DDEND\n",
